@@ -847,3 +847,26 @@ def norm(t):
     out = intern(out)
     _NORM[id(t)] = (t, out)
     return out
+
+
+def field_of(t, name):
+    """field `name` of a struct-valued term, looking through fresh aggregates, field updates and merges."""
+    if t[0] == "agg":
+        for _, n, v in t[3]:
+            if n == name:
+                return v
+        return intern(("field", t, name))
+    if t[0] == "call" and t[1] == "cosmwasm_std::Coin::new" and len(t[2]) == 2 and name in ("amount", "denom"):
+        return t[2][0] if name == "amount" else t[2][1]
+    if t[0] == "upd":
+        if t[2] and t[2][0] == name:
+            return t[3] if len(t[2]) == 1 else intern(("upd", field_of(t[1], name), t[2][1:], t[3]))
+        return field_of(t[1], name)
+    if t[0] == "phi":
+        alts = []
+        for a in t[1]:
+            f = field_of(a, name)
+            if f not in alts:
+                alts.append(f)
+        return alts[0] if len(alts) == 1 else intern(("phi", tuple(alts)))
+    return intern(("field", t, name))
